@@ -33,7 +33,7 @@ LEVEL_NOTE = ("Trusted: the override-map model (effective = own, else nearest an
               "native_anim_max_bytes), VTerm's command counting. faults_fired is empty by design.")
 TIERS = {
     "quick": {"runs": 4000, "max_ops": 30},
-    "thorough": {"runs": 150000, "max_ops": 40, "wall_cap": 1500},
+    "thorough": {"runs": 150000, "max_ops": 60, "wall_cap": 1500},
 }
 RULE = ("program = seeded subclass tree + instances; history = <= max_ops operations from "
         "{set/unset render method on class or instance (valid, unknown, wrong type), "
